@@ -1349,7 +1349,7 @@ func runCase(run *vlib.Run, ex *executor, i int) {
 		}
 	}
 	// histories: a filtered query that fails, then a batch-filtered query
-	c.failHistory(r, 4)
+	c.failHistory(r, 3)
 
 	for k := 0; k < nCounters; k++ {
 		run.Count("calls:"+counterNames[k], int(atomic.LoadInt64(&env.calls[k])))
@@ -1366,7 +1366,7 @@ func TestCheck(t *testing.T) {
 		"(first or last in {0,1,<len,=len,>len}; after/before valid first/middle/last, unknown = garbage / empty / base64 of a missing key / cursor of a filtered-out element; both cursors ordered, adjacent, same, inverted), " +
 		"and 2 prepared-query sequences: Parse + PrepareQuery ONCE, then 4-6 executions of the same *graphql.Query object while the mutable store behind the resolver grows (append / prepend / insert) and shrinks between executions " +
 		"(first only, first + after the newest element, last only, last + before the oldest element, random; initial store often empty or smaller than first/last), each execution compared with the model on the then-current list; " +
-		"and 4 two-query histories per case: a filtered query made to FAIL part-way (harness switch: per-element plain/Expensive/fallback filter funcs, sometimes batch funcs, return an error for a late element after earlier ones matched a broad text; its error is not judged) immediately followed by a batch-filtered first-page query or forward walk with a narrow text, compared with the model; cases run 8 at a time in one process; " +
+		"and 3 two-query histories per case: a filtered query made to FAIL part-way (harness switch: per-element plain/Expensive/fallback filter funcs, sometimes batch funcs, return an error for a late element after earlier ones matched a broad text; its error is not judged) immediately followed by a batch-filtered first-page query or forward walk with a narrow text, compared with the model; cases run 8 at a time in one process; " +
 		"arguments as literals or as variables; with and without batch.WithBatching. " +
 		"One evaluation = one executed query compared with the reference model. Non-trivial = page cut short by first/last, or filter text with tokens, or duplicate sort values among the listed elements, or both cursors given; " +
 		"distinct = (query kind, connection, list/filtered size buckets, filter/sort configuration, argument pattern, expected page shape).")
@@ -1382,6 +1382,6 @@ func TestCheck(t *testing.T) {
 		return
 	}
 	ex := &executor{schema: schema}
-	n := run.N(1200, 30000)
+	n := run.N(1000, 30000)
 	run.Each(n, 8, func(i int) { runCase(run, ex, i) })
 }
